@@ -180,15 +180,11 @@ class SSHChannel(Generic[AnyStr], SSHPacketHandler):
         self._encoding = encoding
         self._errors = errors
 
-        # Keep a separate decoder for each data type, as a character
-        # can be split across packets with other types of data in between
+        # Keep a separate encoder and decoder for each data type, as a
+        # character can be split across packets with other types of data
+        # in between and a stateful encoding has its own state per stream
+        self._encoders: Dict[DataType, codecs.IncrementalEncoder] = {}
         self._decoders: Dict[DataType, codecs.IncrementalDecoder] = {}
-
-        if encoding:
-            self._encoder: Optional[codecs.IncrementalEncoder] = \
-                codecs.getincrementalencoder(encoding)(errors)
-        else:
-            self._encoder = None
 
     def get_recv_window(self) -> int:
         """Return the configured receive window for this channel"""
@@ -937,8 +933,14 @@ class SSHChannel(Generic[AnyStr], SSHPacketHandler):
             return
 
         if self._encoding:
-            assert self._encoder is not None
-            encoded_data = self._encoder.encode(cast(str, data))
+            encoder = self._encoders.get(datatype)
+
+            if encoder is None:
+                encoder = codecs.getincrementalencoder(
+                    self._encoding)(self._errors)
+                self._encoders[datatype] = encoder
+
+            encoded_data = encoder.encode(cast(str, data))
         else:
             encoded_data = cast(bytes, data)
 
